@@ -1073,3 +1073,100 @@ func init() {
 		}
 	}
 }
+
+// fixedPrefixRule: a prefix (or window) taken out of a fixed-size array with a bound that is the result of an
+// interface method call (the block size of whatever hash the caller chose, the length of an encoding) is
+// preceded by a comparison of that bound: otherwise the array's size is an unstated limit and the slice
+// expression panics (or, with copy, truncates) for an implementation beyond it.
+func (c *Ctx) fixedPrefixRule(p *Program, rule string) {
+	var fns []*ssa.Function
+	for f := range p.AllFuncs {
+		if f.Blocks != nil && sourceFunc(f) && isCirclFunc(f) {
+			fns = append(fns, f)
+		}
+	}
+	sort.Slice(fns, func(i, j int) bool { return fns[i].String() < fns[j].String() })
+	n, nbad := 0, 0
+	fromInvoke := func(v ssa.Value) *ssa.Call {
+		for i := 0; i < 6; i++ {
+			switch x := v.(type) {
+			case *ssa.Convert:
+				v = x.X
+			case *ssa.ChangeType:
+				v = x.X
+			case *ssa.Call:
+				if x.Call.IsInvoke() {
+					return x
+				}
+				return nil
+			default:
+				return nil
+			}
+		}
+		return nil
+	}
+	for _, f := range fns {
+		for _, b := range f.Blocks {
+			for _, in := range b.Instrs {
+				sl, ok := in.(*ssa.Slice)
+				if !ok || sl.High == nil {
+					continue
+				}
+				pt, ok := sl.X.Type().Underlying().(*types.Pointer)
+				if !ok {
+					continue
+				}
+				if _, isArr := pt.Elem().Underlying().(*types.Array); !isArr {
+					continue
+				}
+				call := fromInvoke(sl.High)
+				if call == nil {
+					continue
+				}
+				n++
+				compared := false
+				var visit func(v ssa.Value, d int)
+				visit = func(v ssa.Value, d int) {
+					if d > 3 || v.Referrers() == nil {
+						return
+					}
+					for _, r := range *v.Referrers() {
+						switch y := r.(type) {
+						case *ssa.BinOp:
+							if isCmp(y.Op) {
+								compared = true
+							}
+						case *ssa.Convert:
+							visit(y, d+1)
+						case *ssa.ChangeType:
+							visit(y, d+1)
+						}
+					}
+				}
+				visit(call, 0)
+				if !compared {
+					nbad++
+					c.bad(rule, fname(f)+": a window of a fixed-size array is not bounded by an unchecked interface result", fmt.Sprintf("the bound of the slice at %s is the result of %s, which is compared with nothing in this function; the array has %s", p.pos(sl.Pos()), p.staticCalleeName(&call.Call), pt.Elem().String()), p.fnPos(f))
+				}
+			}
+		}
+	}
+	c.count("fixed_prefix_sites", n)
+	if nbad == 0 {
+		c.ok(rule, "no window of a fixed-size array is bounded by an unchecked interface result", fmt.Sprintf("%d such windows on the tree (the stored seeded change is the positive example run by the thorough tier)", n), "")
+	}
+}
+
+func init() {
+	for _, prop := range []string{"C10", "C15"} {
+		prop := prop
+		prev := registry[prop]
+		registry[prop] = func(c *Ctx) {
+			prev(c)
+			if p := c.Prog("amd64"); p != nil {
+				c.Clauses = append(c.Clauses, prop+".fixedprefix: a slice of a fixed-size array bounded by the result of an interface method call is preceded by a comparison of that result")
+				c.fixedPrefixRule(p, prop+".fixedprefix")
+			}
+		}
+	}
+}
